@@ -71,4 +71,77 @@ theorem C02_two_clique_exact (K : Var → Nat) (only2 : List Var) (b1 b2 mu F : 
 
 example : (2 : Rat) * 3 * 5 = 6 * 1 * 5 := by norm_num
 
+/-! ### General trees: a calibrated clique tree carries the exact marginals
+
+A rooted clique tree is given in a leaf-peeling order: `L = [cₙ, …, c₁]`, where `cᵢ` is a leaf of
+the tree that remains after `cₙ … cᵢ₊₁` have been removed; `cᵢ.β` is its belief, `cᵢ.μ` the
+sepset belief on its edge towards the rest and `cᵢ.priv = Cᵢ ∖ Sᵢ` its private variables (by the
+running-intersection property they occur in no remaining clique or sepset).  Every tree with
+the running-intersection property has such an order towards any chosen root `b0`. -/
+
+structure Leaf where
+  β : Asg → Rat
+  μ : Asg → Rat
+  priv : List Var
+
+/-- the clique-tree measure  β₀ · ∏ᵢ βᵢ / μᵢ -/
+def treeMeasure (b0 : Asg → Rat) : List Leaf → Asg → Rat
+  | [] => b0
+  | c :: rest => fun a => treeMeasure b0 rest a * (c.β a / c.μ a)
+
+/-- leaf-peeling order + running intersection + calibration + positivity of the sepset beliefs -/
+def Peelable (K : Var → Nat) (b0 : Asg → Rat) : List Leaf → Prop
+  | [] => True
+  | c :: rest =>
+      IndepOf b0 c.priv ∧ (∀ d ∈ rest, IndepOf d.β c.priv ∧ IndepOf d.μ c.priv) ∧
+      IndepOf c.μ c.priv ∧ (∀ a, sumOut K c.priv c.β a = c.μ a) ∧ (∀ a, c.μ a ≠ 0) ∧
+      Peelable K b0 rest
+
+theorem treeMeasure_indep (b0 : Asg → Rat) (vs : List Var) : ∀ (L : List Leaf), IndepOf b0 vs →
+    (∀ d ∈ L, IndepOf d.β vs ∧ IndepOf d.μ vs) → IndepOf (treeMeasure b0 L) vs
+  | [], h0, _ => h0
+  | c :: rest, h0, hL => by
+    intro a v x hv
+    have ih := treeMeasure_indep b0 vs rest h0 (fun d hd => hL d (List.mem_cons_of_mem _ hd))
+    have hc := hL c List.mem_cons_self
+    simp only [treeMeasure, ih a v x hv, hc.1 a v x hv, hc.2 a v x hv]
+
+/-- **calibrated tree ⇒ exact marginal** (Koller–Friedman Thm 10.4 / Lauritzen–Spiegelhalter): summing the
+    clique-tree measure over every variable outside the root clique returns the root belief.  Since any
+    clique can be taken as the root and the measure is invariant under every message
+    (`C02_update_preserves_measure`), after calibration *every* clique belief is the marginal of the
+    original factor product. -/
+theorem C02_calibrated_tree_exact (K : Var → Nat) (b0 : Asg → Rat) : ∀ (L : List Leaf), Peelable K b0 L →
+    sumOut K (L.flatMap Leaf.priv) (treeMeasure b0 L) = b0
+  | [], _ => rfl
+  | c :: rest, ⟨h0, hrest, hmu, hcal, hne, hP⟩ => by
+    have hM : IndepOf (treeMeasure b0 rest) c.priv := treeMeasure_indep b0 c.priv rest h0 hrest
+    have hinv : IndepOf (fun b => 1 / c.μ b) c.priv := by
+      intro a v x hv; simp only [hmu a v x hv]
+    have step : sumOut K c.priv (treeMeasure b0 (c :: rest)) = treeMeasure b0 rest := by
+      funext a
+      have e1 : treeMeasure b0 (c :: rest) = fun b => treeMeasure b0 rest b * ((fun b => c.β b / c.μ b) b) := rfl
+      rw [e1, sumOut_mul_const K c.priv _ _ hM a]
+      have e2 : (fun b => c.β b / c.μ b) = fun b => (1 / c.μ b) * c.β b := by funext b; ring
+      rw [e2, sumOut_mul_const K c.priv _ _ hinv a, hcal a]
+      have := hne a
+      field_simp
+    rw [List.flatMap_cons, sumOut_append, step]
+    exact C02_calibrated_tree_exact K b0 rest hP
+
+/-- with the measure invariant: if the tree measure equals the product `F` of the model's factors on every
+    assignment, the root belief is the exact marginal of `F` -/
+theorem C02_calibrated_tree_marginal (K : Var → Nat) (b0 F : Asg → Rat) (L : List Leaf) (hP : Peelable K b0 L)
+    (hF : ∀ a, F a = treeMeasure b0 L a) : sumOut K (L.flatMap Leaf.priv) F = b0 := by
+  have : F = treeMeasure b0 L := funext hF
+  rw [this]; exact C02_calibrated_tree_exact K b0 L hP
+
+/-- non-vacuity: a root with one calibrated leaf over a private binary variable -/
+example : Peelable (fun _ => 2) (fun _ => 1)
+    [{ β := fun a => if a 1 = 0 then 1/4 else 3/4, μ := fun _ => 1, priv := [1] }] := by
+  refine ⟨fun _ _ _ _ => rfl, (fun d hd => by cases hd), fun _ _ _ _ => rfl, ?_, (fun _ => by norm_num), trivial⟩
+  intro a
+  simp [sumOut, sumVar, upd, List.range_succ]
+  norm_num
+
 end PgmVerif
